@@ -45,6 +45,8 @@ POOL = [
     ('extras = MyExtras', ['i:extras', 'e', 'i:MyExtras'], {}),
     ('extras = u8', ['i:extras', 'e', 'i:u8'], {}),
     ('extras(u8)', ['i:extras', 'g:20'], {20: ['i:u8']}),
+    ('extras = ()', ['i:extras', 'e', 'g:60'], {60: []}),          # the default value spelled out: still an item
+    ('error = ()', ['i:error', 'e', 'g:61'], {61: []}),
     ('skip " +"', ['i:skip', 'l:1004'], {}),
     ('skip b"\\t"', ['i:skip', 'l:2004'], {}),
     ('skip 3', ['i:skip', 'l:3'], {}),
@@ -171,7 +173,8 @@ def cases(seed, n_random):
         out.append(([it], True))
         out.append(([it, it], True))
     for a, b in itertools.permutations(POOL, 2):
-        if R.random() < 0.35:
+        # two items of the same kind (a single-valued item given twice): always, in both orders
+        if R.random() < 0.35 or a[1][0] == b[1][0]:
             out.append(([a, b], False))
     for a, b in itertools.permutations(GPOOL + POOL[:2] + POOL[31:33], 2):
         out.append(([a, b], True))
@@ -211,8 +214,8 @@ def tie(run, seed, n_random):
             t = cap.codetext
             head = t[:t.index('fn lex')] if 'fn lex' in t else t
             ok = ((f.get('utf8') == '0') == (not cap.utf8)) and (int(f.get('skips', '0')) == sum(1 for l in cap.leaves if l[1] == 0)) \
-                and ((f.get('extras') == '1') == ('MyExtras' in head or 'type Extras = u8' in head.replace(' ;', ';'))) \
-                and ((f.get('error') != '-') == ('MyErr' in head or 'my :: Err' in head or 'my::Err' in head))
+                and (any(t == 'extras = ()' for t, _, _ in items) or (f.get('extras') == '1') == ('MyExtras' in head or 'type Extras = u8' in head.replace(' ;', ';'))) \
+                and (any(t == 'error = ()' for t, _, _ in items) or (f.get('error') != '-') == ('MyErr' in head or 'my :: Err' in head or 'my::Err' in head))
         for c in pred:
             stats['classes'][c] = stats['classes'].get(c, 0) + 1
         if f.get('ret') == '1':
